@@ -237,6 +237,31 @@ func c20Shape(family string, p []int64) []byte {
 		} else {
 			sb.WriteByte(']')
 		}
+	case "ragged": // p: rows, long, short, variant - rows alternate between `long` and `short` members (arrays of numbers, or objects)
+		rows, long, short, v := g(0), g(1), g(2), g(3)
+		sb.WriteByte('[')
+		for i := 0; i < rows; i++ {
+			if i > 0 {
+				sb.WriteByte(',')
+			}
+			n := long
+			if i%2 == 1 || (v&2 != 0 && i%3 != 0) {
+				n = short
+			}
+			if v&4 != 0 {
+				n = 1 + (i*long)/rows // rows that keep growing
+			}
+			if v&1 == 0 {
+				sb.WriteByte('[')
+				elems(&sb, n, "7")
+				sb.WriteByte(']')
+			} else {
+				sb.WriteByte('{')
+				keys(&sb, n, "7")
+				sb.WriteByte('}')
+			}
+		}
+		sb.WriteByte(']')
 	case "small": // p: which
 		smalls := []string{`{"a":{},"b":{},"c":{},"d":{},"e":{}}`, `[1]`, `null`, `[1,`, `{"a":`, `[1]x`, `{}`, `[]`, `[[],[],[]]`, `"str"`, `1`, ``, `{"a":[{}]}`, `[{"a":1}]`, `[1e400]`, `{"a"}`}
 		return []byte(smalls[g(0)%len(smalls)])
